@@ -2,7 +2,7 @@
 import re
 from ..facts import Program, loc
 from ..run import Check, AnalysisBroken
-from ..rules import r4_own, r9_sibling, ledger, r5_grow, r6_wspace, extent
+from ..rules import r4_own, r9_sibling, ledger, r5_grow, r6_wspace, extent, r11_kinds
 
 DUNITS = None   # R9: whole SRC + FORTRAN
 
@@ -70,6 +70,7 @@ def run(tier):
         if nd < 6:
             raise AnalysisBroken('C19: only %d Destroy_* routines found (floor 6)' % nd)
         extent.elem_size_rule(chk, 'C19.elem', prog, None, cfgname, floor=90)
+        r11_kinds.run(chk, 'C19.kinds', prog, cfgname, floor=1900)
         if cfgname == 'tested':
             r9_sibling.run(chk, prog, 'R9', None, cfgname)
     return chk.finish()
